@@ -26,7 +26,7 @@ EXPLANATION = ('theorems C06_* (coq/props/C06.v) hold for every rectangular tabl
 TRUSTED = ['modelled, not verified: coq/model/M_filter.v + M_table.v (tied by the correspondence only)',
            'regexes restricted to literal patterns (re.escape): pattern.search = substring test',
            'kwargs_support / callables restricted to the named set of M_table.rowfn']
-ASSUMPTIONS = ['cells are None, ints, half-integer floats, NaN objects, ASCII strings; no +-inf cells or conditions: pyg_base.is_nan treats inf as NaN (inc(x=nan) also selects inf rows, inc(x=inf) selects NaN rows) and the property text does not decide that case',
+ASSUMPTIONS = ['cells are None, ints, half-integer floats, NaN objects, ASCII strings; +-inf cells and conditions are generated and modelled as the code does (pyg_base.is_nan counts inf as missing: inc(x=nan) also selects inf rows, inc(x=inf) NaN rows); the text does not decide the MEMBERSHIP of such rows, so the oracle claims for them only that inc/exc partition the rows in order and keep the columns',
                'a conjunction spelled across keyword filters and positional dicts is the flattened list kw ++ dict1 ++ dict2 (model: QFilters + dict_of); when one column gets two '
                'different conditions in one call the model follows the code (the later group wins) but the oracle only claims that inc/exc still partition the rows in order',
                'a call has either ONE callable or keyword/dict filters, as in the property text ("any single predicate ..., or any conjunction of column conditions"): '
@@ -41,7 +41,7 @@ LEVEL_NOTE = 'model tied to the source by the differential run only; regexes lit
 TECHNIQUE = 'Coq refinement proof (sequential masks = filter by the conjunction) + differential correspondence in vm_compute + predicate oracle'
 
 # column names: plain ones and names made only of the letters of 'find_' / starting with them (find_<col> must cut the PREFIX 'find_', not a character set)
-NAMES = ['a', 'b', 'c', 'id', 'name', 'date', 'f', 'n1', '_x', 'find_me', 'dd']
+NAMES = ['a', 'b', 'c', 'id', 'name', 'date', 'f', 'n1', '_x', 'find_me', 'dd', 'key']
 NAME_PAIRS = [('a', 'b'), ('id', 'name'), ('f', 'date'), ('_x', 'n1'), ('find_me', 'dd'), ('name', 'id'), ('dd', 'f')]
 
 def cond_coq(c):
@@ -102,7 +102,12 @@ def sat_cond(c, v, conv):
     if 'v' in c:
         x = conv(c['v'])
         if x is None: return v is None
-        if isinstance(x, float) and x != x: return isinstance(v, float) and v != v
+        inf_ = lambda z: isinstance(z, float) and z in (float('inf'), float('-inf'))
+        nan_ = lambda z: isinstance(z, float) and z != z
+        # a NaN condition against a +-inf cell (pyg's is_nan counts inf as missing), or an inf condition against a NaN / other-inf cell:
+        # the text does not decide membership -> None; the partition / order / column laws are still claimed for such rows
+        if (nan_(x) and inf_(v)) or (inf_(x) and (nan_(v) or (inf_(v) and v != x))): return None
+        if nan_(x): return nan_(v)
         return v is x or v == x
     if 'l' in c: return any(v is x or v == x for x in (conv(y) for y in c['l']))
     return isinstance(v, str) and c['re'] in v
@@ -162,8 +167,11 @@ def impl(case):
         else:
             conds = {}
             for k, c in q['filters']: conds[k] = c          # kw, dict1, dict2 in this order: the conjunction of all the column conditions
-            sel = [all(sat_cond(c, r[k], conv) for k, c in conds.items()) for r in rows]
-            if overlapping(q):
+            def conj(r):
+                vs = [sat_cond(c, r[k], conv) for k, c in conds.items()]
+                return False if any(x is False for x in vs) else None if any(x is None for x in vs) else True
+            sel = [conj(r) for r in rows]
+            if overlapping(q) or any(x is None for x in sel):
                 # two different conditions on ONE column in one call (kw vs dict): the text does not say whether both apply or the later
                 # one wins (the code: later wins) - no claim on which rows, only that inc/exc still split the rows, in order, keeping columns
                 for name, res in (('inc', r_inc), ('exc', r_exc)):
@@ -172,7 +180,9 @@ def impl(case):
                     ki, gi = table_rows(r_inc[1]); ke, ge = table_rows(r_exc[1])
                     if set(ki) != set(cols) or set(ke) != set(cols): viol = 'inc/exc(%s) on %s lost columns: %s / %s' % (json.dumps(q, sort_keys=True), snap, ki, ke)
                     elif len(gi) + len(ge) != len(rows) or not is_subseq(gi, rows) or not is_subseq(ge, rows):
-                        viol = 'inc/exc(%s) on %s do not partition the rows in order: inc %s, exc %s' % (json.dumps(q, sort_keys=True), snap, gi, ge)
+                        viol = 'inc/exc(%s) on %s do not partition the rows in order (every row must be in exactly one of them): inc %s, exc %s' % (json.dumps(q, sort_keys=True), snap, gi, ge)
+                    elif not overlapping(q) and (not is_subseq(gi, [r for r, x in zip(rows, sel) if x is not False]) or not is_subseq(ge, [r for r, x in zip(rows, sel) if x is not True])):
+                        viol = 'inc/exc(%s) on %s put a row whose membership IS decided on the wrong side: inc %s, exc %s' % (json.dumps(q, sort_keys=True), snap, gi, ge)
                 claim = False
     if claim and viol is None:
         exp_inc = [r for r, s in zip(rows, sel) if s]
@@ -201,7 +211,7 @@ def impl(case):
 
 # ------------------------------------------------------------------ generation
 CELLS = [None, None, 0, 1, {'f': 2}, 2, {'f': 5}, {'nan': 0}, {'nan': 1}, {'s': 'a'}, {'s': 'ab'}, {'s': 'b'}, {'s': ''},
-         -1, {'f': -2}, {'f': 0}, 10 ** 12, {'s': 'a b'}, {'s': 'None'}, {'s': 'nan'}, {'s': '1'}]
+         -1, {'f': -2}, {'f': 0}, 10 ** 12, {'s': 'a b'}, {'s': 'None'}, {'s': 'nan'}, {'s': '1'}, {'inf': 1}, {'inf': -1}]
 FRESH_NAN = {'nan': 9}
 
 def gen_table(rng):
@@ -215,7 +225,7 @@ def gen_cond(rng, pool, colvals):
     src = colvals if colvals and rng.random() < 0.7 else (pool or CELLS)
     if r < 0.35: return {'v': rng.choice(src)}
     if r < 0.42: return {'v': None}
-    if r < 0.5: return {'v': rng.choice([{'nan': 0}, FRESH_NAN])}
+    if r < 0.5: return {'v': rng.choice([{'nan': 0}, FRESH_NAN, FRESH_NAN, {'inf': 1}, {'inf': -1}])}
     if r < 0.85:
         l = [rng.choice(src + [FRESH_NAN]) for _ in range(rng.choice([0, 1, 2, 2, 3]))]
         if rng.random() < 0.15: l = list({json.dumps(x): x for x in colvals}.values())      # match everything
@@ -264,6 +274,17 @@ def gen_cases(rng, tier):
                 else: q = {'filters': fs[:len(ks)], 'form': q['form']}
         cases.append({'kvs': kvs, 'q': q, 'fkey': rng.choice(names + (['z'] if rng.random() < 0.03 else [])), 'kind': 'random'})
     # sizes far beyond 0-6 rows: 101-200 rows, one or two conditions selecting a proper subset / nothing / everything
+    # +-inf cells against NaN / inf conditions (value and list spellings): membership undecided, the partition laws are not
+    for _ in range(160 if tier == 'quick' else 3000):
+        n = rng.choice([1, 2, 3, 4, 5, 6]); ka, kb = rng.choice(NAME_PAIRS)
+        pool = rng.sample([{'inf': 1}, {'inf': -1}, {'nan': 0}, {'nan': 1}, None, 1, {'f': 2}, {'s': 'a'}], rng.choice([2, 3, 4]))
+        if not any(isinstance(x, dict) and 'inf' in x for x in pool): pool[0] = {'inf': rng.choice([1, -1])}
+        kvs = [[ka, {'L': [rng.choice(pool) for _ in range(n)]}], [kb, {'L': [rng.choice([0, 1]) for _ in range(n)]}]]
+        c1 = rng.choice([{'v': {'nan': 0}}, {'v': FRESH_NAN}, {'v': FRESH_NAN}, {'v': {'inf': 1}}, {'v': {'inf': -1}}, {'l': [{'nan': 0}, {'inf': 1}]}, {'l': [{'inf': -1}]}, {'l': [FRESH_NAN]}, {'l': [{'inf': 1}, 1], 'as': 'tuple'}])
+        fs = [[ka, c1]] + ([[kb, {'v': rng.choice([0, 1])}]] if rng.random() < 0.4 else [])
+        g = rng.choice([None, None, [0, len(fs), None], [len(fs) - 1, 1, None]])
+        q = {'filters': fs, 'form': 'kw'} if g is None else {'filters': fs, 'form': 'split', 'groups': g}
+        cases.append({'kvs': kvs, 'q': q, 'fkey': rng.choice([ka, kb]), 'kind': 'inf'})
     big = []
     for _ in range(10 if tier == 'quick' else 200):
         n = rng.randrange(101, 201); ka, kb = rng.choice(NAME_PAIRS)
